@@ -433,6 +433,8 @@ def run(ctx):
     wgf = G.WildGen(rng, focus=True)
 
     violations_before = len(ctx.violations)
+    ctx.obligation("ctx variables of the programs drawn from Gen/StoreWritable.v (Set / Get methods of interpreter/variable)",
+                   G.WRITABLE is not None, "" if G.WRITABLE is not None else "table missing or not generated: hand-written fallback list in use")
     ok, note = names_tie()
     ctx.obligation("built-in names of the generator = std_builtin_names of the model (effect-free by Gen/StoreEffects.v)", ok, note)
     # ------------------------------------------------------------------ corpus first (fixed VCL programs with their own expectations)
@@ -485,6 +487,12 @@ def run(ctx):
         "dimension_counts": dict(sorted(dims.items())),
         "budget_shares": {"core programs with shape focus": "1/3", "wild programs with shape + all-types focus": "1/2"},
         "generator_stats": dict(sorted(stats.items())),
+        "tables_regenerated_from_source": [
+            "Gen/StoreEffects.v: builtin_effects / builtin_ctx_free / builtin_arg_writers (interpreter/function/builtin/*.go), "
+            "statement_effects (statement.go), operator_effects / operator_ctx_free (operator/operator.go)",
+            "Gen/StoreWritable.v: writable / readable ctx variables per scope (interpreter/variable/<scope>.go Set / Get)"],
+        "ctx_variables_per_scope_drawn_from_source": {sc: len(v) for sc, v in (G.WRITABLE or {}).items() if sc in G.SCOPES},
+        "ctx_variables_assigned_into_a_field_their_getter_does_not_return": {sc: [n for n, _ in v] for sc, v in (G.WRITE_ONLY or {}).items() if sc in G.SCOPES},
     })
     return ctx.finish(
         level="proof",
